@@ -165,7 +165,7 @@ func CollFamilies() []CollSpec {
 	P16 := rep('p', 16)
 	return []CollSpec{
 		{Name: "CASEACC", Free: []string{"a", "A", "á", "ä", "ab", "aB", "Ab", "b"}, Probes: []string{"Á", "B", "aa"}},
-		{Name: "WORDS", Free: []string{"abc", "résumé", "resume", "Resume", "z", "å", "ö", ""}, Probes: []string{"résume", "Z", "o"}},
+		{Name: "WORDS", Free: []string{"abc", "résumé", "resume", "Resume", "z", "å", "ö", ""}, Probes: []string{"résume", "Z", "o", "re\u0301sume\u0301", "RESUME"}}, // incl. the NFD twin of a stored NFC string (equal sort key, different bytes)
 		{Name: "DIGITS", Free: []string{"9", "10", "a9", "a10", "2", "a2", "a b", "a-b"}, Probes: []string{"a", "1", "ab"}},
 		{Name: "CJKLONG", Free: []string{"日本", "日本語", P16 + "a", P16 + "A", P16 + "b", P16 + "ab", "日", "本"}, Probes: []string{P16, "語", P16 + "B"}},
 		{Name: "VALS", Free: []string{"a", "A", "á", "ab", P16 + "x"}, NVals: 2},
